@@ -58,27 +58,49 @@ func (b *c08Builder) fins(own string, pOwn, pHold int) []string {
 	return f
 }
 
+// Names are drawn so that the identity dimensions of every lookup are exercised: the same
+// claim name in two namespaces, names that are string prefixes of one another (c1 / c10 /
+// c1-a, x1 / x10 / x1-a, p1 / p10 / p1-a), and numbering that differs from name order.
+var (
+	c08ClaimNames = []string{"ns/c1", "ns2/c1", "ns/c10", "ns/c1-a", "ns2/c2", "ns/c"}
+	c08XRNames    = []string{"x1", "x10", "x1-a", "x", "x2", "x11"}
+	c08RevNames   = []string{"p1", "p10", "p1-a", "p", "p2"}
+)
+
 func (b *c08Builder) claimsAndXRs(n int, pDel int) {
 	r := b.r
-	for i := 1; i <= n; i++ {
-		cn := fmt.Sprintf("ns/c%d", i)
-		xn := fmt.Sprintf("x%d", i)
+	cns := r.Perm(len(c08ClaimNames))
+	xns := r.Perm(len(c08XRNames))
+	for i := 0; i < n && i < len(cns) && i < len(xns); i++ {
+		cn := c08ClaimNames[cns[i]]
+		xn := c08XRNames[xns[i]]
 		ref := xn
 		switch {
-		case r.Chance(12, 100):
+		case r.Chance(10, 100):
 			ref = ""
-		case r.Chance(12, 100):
+		case r.Chance(8, 100):
 			ref = "xgone"
+		case r.Chance(8, 100):
+			// the XR of another pair (exists or not): a name related to ours by a prefix
+			ref = c08XRNames[xns[(i+1)%len(xns)]]
 		}
 		b.add(c08Obj{Kind: "claim", Name: cn, Fins: b.fins(claim.VerifC08Finalizer, 88, 18), Del: r.Chance(pDel, 100),
 			Flag: r.Bool(), Paused: r.Chance(4, 100), Ref: ref})
 		if ref == xn || r.Chance(50, 100) {
 			cref := cn
 			switch {
-			case r.Chance(8, 100):
+			case r.Chance(7, 100):
 				cref = ""
-			case r.Chance(8, 100):
+			case r.Chance(6, 100):
 				cref = "ns/other"
+			case r.Chance(8, 100):
+				// the claim of the same name in the other namespace
+				cns2, cn2 := c08NsName("claim", cn)
+				if cns2 == "ns" {
+					cref = "ns2/" + cn2
+				} else {
+					cref = "ns/" + cn2
+				}
 			}
 			xi := b.add(c08Obj{Kind: "xr", Name: xn, Fins: b.fins(composite.VerifC08Finalizer, 88, 15), Del: r.Chance(20, 100),
 				Paused: r.Chance(3, 100), Ref: cref})
@@ -112,7 +134,9 @@ func (b *c08Builder) xrd(pDel int) {
 		case r.Chance(75, 100):
 			ow = append(ow, c08Owner{Idx: xi, Ctrl: true, Block: true})
 		case r.Chance(50, 100):
-			ow = append(ow, c08Owner{Idx: -1, Ctrl: true, Block: true})
+			// controlled by somebody else; half of the time by an earlier incarnation of this
+			// very XRD (same apiVersion, kind and name, another UID)
+			ow = append(ow, c08Owner{Idx: -1, Ctrl: true, Block: true, Twin: r.Bool()})
 		case r.Chance(50, 100):
 			ow = append(ow, c08Owner{Idx: xi, Ctrl: false})
 		}
@@ -122,42 +146,91 @@ func (b *c08Builder) xrd(pDel int) {
 
 func (b *c08Builder) revs() {
 	r := b.r
-	n := r.Range(1, 2)
-	for i := 1; i <= n; i++ {
+	n := r.Range(1, 3)
+	ns := r.Perm(len(c08RevNames))
+	for i := 0; i < n; i++ {
 		// desiredState and skipDependencyResolution are drawn independently of Lock
 		// membership: a revision marked Inactive whose deactivation never completed, or one
 		// that switched dependency resolution off after resolving, is still in the Lock.
-		b.add(c08Obj{Kind: "rev", Name: fmt.Sprintf("p%d", i), Fins: b.fins(revision.VerifC08Finalizer, 90, 15), Del: r.Chance(80, 100), Paused: r.Chance(5, 100),
+		b.add(c08Obj{Kind: "rev", Name: c08RevNames[ns[i]], Fins: b.fins(revision.VerifC08Finalizer, 90, 15), Del: r.Chance(80, 100), Paused: r.Chance(5, 100),
 			Inactive: r.Chance(40, 100), SkipDeps: r.Chance(30, 100)})
 	}
 	if r.Chance(85, 100) {
 		pk := []string{}
-		for _, p := range []string{"p1", "p2", "p3"} {
-			if r.Chance(65, 100) {
-				pk = append(pk, p)
+		for _, j := range r.Perm(len(c08RevNames)) { // Lock order differs from name order
+			if r.Chance(60, 100) {
+				pk = append(pk, c08RevNames[j])
 			}
 		}
 		b.add(c08Obj{Kind: "lock", Name: revision.VerifC08LockName, Fins: b.fins(c08Hold, 5, 0), Pkgs: pk})
 	}
 }
 
+// usages: 1-3 Usages; using / used resources of three kinds (the same Kind in two API
+// groups, two Kinds in one group) that may share a name; two Usages may share a using or
+// a used resource.
 func (b *c08Builder) usages() {
 	r := b.r
-	by := "using1"
-	if r.Chance(20, 100) {
-		by = ""
+	kinds := []string{"", "", "res2", "res3"}
+	if r.Chance(25, 100) {
+		// twins: two (or three) terminating composed Usages whose using resources share a
+		// NAME across kinds, some of them gone and some present
+		ks := r.Perm(3)
+		all := []string{"", "res2", "res3"}
+		for i, n := 0, r.Range(2, 3); i < n; i++ {
+			k := all[ks[i]]
+			b.add(c08Obj{Kind: "usage", Name: fmt.Sprintf("u%d", i+1), Fins: []string{usagectrl.VerifC08Finalizer}, Del: true,
+				Flag: true, Ref: "using1", RefKind: k, Of: "used1", OfKind: Pick(r, kinds)})
+			if r.Bool() {
+				b.add(c08Obj{Kind: c08ResKind(k), Name: "using1", Fins: b.fins(c08Hold, 30, 0), Del: r.Chance(20, 100)})
+			}
+		}
+		if r.Chance(70, 100) {
+			b.add(c08Obj{Kind: "res", Name: "used1", Inuse: true})
+		}
+		return
 	}
-	b.add(c08Obj{Kind: "usage", Name: "u1", Fins: b.fins(usagectrl.VerifC08Finalizer, 90, 12), Del: r.Chance(80, 100),
-		Flag: r.Chance(75, 100), Ref: by, Of: "used1"})
-	if r.Chance(35, 100) {
-		b.add(c08Obj{Kind: "usage", Name: "u2", Fins: b.fins(usagectrl.VerifC08Finalizer, 90, 5), Del: r.Chance(40, 100),
-			Flag: r.Bool(), Ref: "", Of: "used1"})
+	n := 1
+	if r.Chance(45, 100) {
+		n = r.Range(2, 3)
 	}
-	if r.Chance(78, 100) {
-		b.add(c08Obj{Kind: "res", Name: "used1", Fins: b.fins(c08Hold, 15, 0), Del: r.Chance(10, 100), Inuse: r.Chance(75, 100)})
+	type rk struct{ kind, name string }
+	var using, used []rk
+	for i := 1; i <= n; i++ {
+		by, byKind := Pick(r, []string{"using1", "using1", "using10", "using"}), Pick(r, kinds)
+		if r.Chance(18, 100) {
+			by, byKind = "", ""
+		}
+		of, ofKind := Pick(r, []string{"used1", "used1", "used10"}), Pick(r, kinds)
+		del := 80
+		if i > 1 {
+			del = 45
+		}
+		b.add(c08Obj{Kind: "usage", Name: fmt.Sprintf("u%d", i), Fins: b.fins(usagectrl.VerifC08Finalizer, 90, 10), Del: r.Chance(del, 100),
+			Flag: r.Chance(75, 100), Ref: by, RefKind: byKind, Of: of, OfKind: ofKind})
+		if by != "" {
+			using = append(using, rk{c08ResKind(byKind), by})
+		}
+		used = append(used, rk{c08ResKind(ofKind), of})
 	}
-	if by != "" && r.Chance(65, 100) {
-		b.add(c08Obj{Kind: "res", Name: by, Fins: b.fins(c08Hold, 40, 0), Del: r.Chance(30, 100)})
+	have := map[rk]bool{}
+	addRes := func(x rk, p int, o c08Obj) {
+		if have[x] || !r.Chance(p, 100) {
+			return
+		}
+		have[x] = true
+		o.Kind, o.Name = x.kind, x.name
+		b.add(o)
+	}
+	for _, x := range used {
+		addRes(x, 78, c08Obj{Fins: b.fins(c08Hold, 15, 0), Del: r.Chance(10, 100), Inuse: r.Chance(75, 100)})
+	}
+	for _, x := range using {
+		addRes(x, 60, c08Obj{Fins: b.fins(c08Hold, 40, 0), Del: r.Chance(30, 100)})
+		// an object of ANOTHER kind with the name of the using resource
+		if r.Chance(35, 100) {
+			addRes(rk{Pick(r, []string{"res", "res2", "res3"}), x.name}, 100, c08Obj{Fins: b.fins(c08Hold, 20, 0)})
+		}
 	}
 }
 
@@ -177,11 +250,11 @@ func c08GenWorld(r *Rng) (c08Scn, string) {
 	switch x := r.Intn(100); {
 	case x < 30:
 		fam = "claims"
-		b.claimsAndXRs(r.Range(1, 2), 80)
+		b.claimsAndXRs(r.Range(1, 4), 80)
 	case x < 62:
 		fam = "xrd"
 		b.xrd(80)
-		b.claimsAndXRs(r.Intn(3), 25)
+		b.claimsAndXRs(r.Intn(4), 25)
 	case x < 74:
 		fam = "rev"
 		b.revs()
@@ -191,7 +264,7 @@ func c08GenWorld(r *Rng) (c08Scn, string) {
 	default:
 		fam = "mixed"
 		b.xrd(60)
-		b.claimsAndXRs(r.Range(1, 2), 50)
+		b.claimsAndXRs(r.Range(1, 3), 50)
 		b.revs()
 		b.usages()
 	}
@@ -208,9 +281,17 @@ type c08Live struct {
 // objects that are being deleted (or are gone), one at a time per (controller, key).
 func c08RandomSchedule(r *Rng, n int, liveClaims bool) func(w *c08World, i int) (c08Step, bool) {
 	live := map[int]c08Live{}
+	// one scenario in three has lagging informer caches, one in three third-party edits;
+	// never together with live-claim reconciles (those are outside the model already)
+	lagging := !liveClaims && r.Chance(1, 3)
+	editing := !liveClaims && r.Chance(1, 3)
+	calls := map[int]int{} // thread -> calls made so far
 	return func(w *c08World, i int) (c08Step, bool) {
 		if i >= n {
 			return c08Step{}, false
+		}
+		if i == 0 {
+			w.keepSnaps = lagging
 		}
 		s := w.snap()
 		busy := map[c08Live]bool{}
@@ -228,8 +309,30 @@ func c08RandomSchedule(r *Rng, n int, liveClaims bool) func(w *c08World, i int) 
 		sort.Strings(keys)
 		var spawns []c08Live
 		var dels, unfins []c08View
+		var edits []c08Step
+		xrNames, claimNames := []string{"", "xgone"}, []string{"", "ns/other"}
+		for _, k := range keys {
+			switch v := s.objs[k]; v.Kind {
+			case "xr":
+				xrNames = append(xrNames, v.Name)
+			case "claim":
+				claimNames = append(claimNames, v.Name)
+			}
+		}
 		for _, k := range keys {
 			v := s.objs[k]
+			if editing {
+				switch v.Kind {
+				case "claim":
+					edits = append(edits, c08Step{Op: "edit", Kind: v.Kind, Name: v.Name, W: "flip"},
+						c08Step{Op: "edit", Kind: v.Kind, Name: v.Name, W: "ref=" + Pick(r, xrNames)})
+				case "xr":
+					edits = append(edits, c08Step{Op: "edit", Kind: v.Kind, Name: v.Name, W: "ref=" + Pick(r, claimNames)})
+				case "usage":
+					edits = append(edits, c08Step{Op: "edit", Kind: v.Kind, Name: v.Name, W: "flip"},
+						c08Step{Op: "edit", Kind: v.Kind, Name: v.Name, W: "ref=" + Pick(r, []string{"using1", "using10", "using"})})
+				}
+			}
 			if v.Del {
 				for _, c := range c08Ctls[v.Kind] {
 					if !busy[c08Live{c, v.Name}] {
@@ -283,18 +386,42 @@ func c08RandomSchedule(r *Rng, n int, liveClaims bool) func(w *c08World, i int) 
 				if len(liveIDs) == 0 {
 					continue
 				}
-				o := "ok"
+				st := c08Step{Op: "step", T: Pick(r, liveIDs), O: "ok"}
 				switch y := r.Intn(100); {
-				case y < 8:
-					o = "fail"
-				case y < 13:
-					o = "conflict"
-				case y < 15:
-					o = "crashBefore"
-				case y < 18:
-					o = "crashAfter"
+				case y < 9:
+					// an error of one of the classes an API server or the transport can answer
+					// with whatever the state of the object
+					st.O, st.E = "fail", Pick(r, c08WriteClasses)
+				case y < 14:
+					st.O = "conflict"
+				case y < 16:
+					st.O = "crashBefore"
+				case y < 19:
+					st.O = "crashAfter"
+				case lagging && y < 50 && i > 0:
+					// the cache shows the store as it was a few (or many) steps ago
+					back := 1 + r.Intn(4)
+					if r.Chance(1, 4) {
+						back = 1 + r.Intn(i)
+					}
+					if back > i {
+						back = i
+					}
+					st.At = i - back + 1
+					// The first read of a reconcile fetches the object itself: a cache in which it
+					// is not yet being deleted sends the reconcile down the live path (outside
+					// the model), so that read only lags back to where the deletion was visible.
+					if calls[st.T] == 0 && !c08Terminating(w.snaps[st.At-1], live[st.T]) {
+						st.At = 0
+					}
 				}
-				return c08Step{Op: "step", T: Pick(r, liveIDs), O: o}, true
+				calls[st.T]++
+				return st, true
+			case editing && x >= 55 && x < 61:
+				if len(edits) == 0 {
+					continue
+				}
+				return Pick(r, edits), true
 			case x < 77:
 				if len(spawns) == 0 || len(liveIDs) >= 4 {
 					continue
@@ -320,6 +447,75 @@ func c08RandomSchedule(r *Rng, n int, liveClaims bool) func(w *c08World, i int) 
 		}
 		return c08Step{Op: "gc"}, true
 	}
+}
+
+// c08SeqSchedule: the reconciles of all terminating objects run one after the other, each
+// to its end, over up to three rounds, on the long-lived reconcilers of one process; one or
+// two of the API calls (uniformly chosen among the first 24) fail with an error of a
+// uniformly chosen class (or a conflict). This covers every (call, error class) pair of
+// every deletion branch with high probability per run of the check, and drives each
+// long-lived reconciler through a sequence of different objects.
+func c08SeqSchedule(r *Rng, maxSteps int) func(w *c08World, i int) (c08Step, bool) {
+	faults := map[int]c08Step{}
+	for j, m := 0, r.Range(1, 2); j < m; j++ {
+		f := c08Step{O: "fail", E: Pick(r, c08WriteClasses)}
+		if r.Chance(1, 8) {
+			f = c08Step{O: "conflict"}
+		}
+		faults[r.Intn(24)] = f
+	}
+	calls, cur, gcs := 0, -1, 0
+	ran := map[c08Live]int{}
+	return func(w *c08World, i int) (c08Step, bool) {
+		if i >= maxSteps {
+			return c08Step{}, false
+		}
+		if cur >= 0 && cur < len(w.threads) && !w.threads[cur].fin {
+			st := c08Step{Op: "step", T: cur, O: "ok"}
+			if f, ok := faults[calls]; ok {
+				st.O, st.E = f.O, f.E
+			}
+			calls++
+			return st, true
+		}
+		s := w.snap()
+		keys := make([]string, 0, len(s.objs))
+		for k := range s.objs {
+			keys = append(keys, k)
+		}
+		sort.Strings(keys)
+		var cands []c08Live
+		for _, k := range keys {
+			if v := s.objs[k]; v.Del {
+				for _, c := range c08Ctls[v.Kind] {
+					if ran[c08Live{c, v.Name}] < 3 {
+						cands = append(cands, c08Live{c, v.Name})
+					}
+				}
+			}
+		}
+		if (len(cands) == 0 || r.Chance(1, 8)) && gcs < 4 {
+			gcs++
+			return c08Step{Op: "gc"}, true
+		}
+		if len(cands) == 0 {
+			return c08Step{}, false
+		}
+		c := Pick(r, cands)
+		ran[c]++
+		cur = len(w.threads)
+		return c08Step{Op: "spawn", C: c.ctl, Name: c.name}, true
+	}
+}
+
+var c08CtlKind = map[string]string{"claim": "claim", "xr": "xr", "defined": "xrd", "offered": "xrd", "rev": "rev", "usage": "usage"}
+
+// c08Terminating: in this store the object a reconcile of l serves is being deleted or gone.
+func c08Terminating(st *Store, l c08Live) bool {
+	kind := c08CtlKind[l.ctl]
+	ns, n := c08NsName(kind, l.name)
+	u := st.Peek(c08GVK(kind).GroupKind(), ns, n)
+	return u == nil || u.GetDeletionTimestamp() != nil
 }
 
 // c08RaceWorld / c08RaceSchedule: the neighbourhood of the known finding
@@ -377,6 +573,180 @@ func c08RaceSchedule(r *Rng) func(w *c08World, i int) (c08Step, bool) {
 	}
 }
 
+// c08MissWorld / c08MissSchedule: an object that was created so recently that the informer
+// cache of the reconciling controller has not seen it yet (recorded findings
+// C08:claim-finalized-xr-missing-from-cache, C08:xrd-torn-down-crd-missing-from-cache). A
+// cache older than the initial world is a creation step in disguise, so these runs are
+// outside the model and judged by the monitors only.
+func c08MissWorld(r *Rng) (c08Scn, c08Live) {
+	b := &c08Builder{r: r}
+	if r.Chance(2, 3) {
+		b.add(c08Obj{Kind: "claim", Name: "ns/c1", Fins: b.fins(claim.VerifC08Finalizer, 100, 15), Del: true, Flag: r.Bool(), Ref: "x1"})
+		b.add(c08Obj{Kind: "xr", Name: "x1", Fins: []string{composite.VerifC08Finalizer}, Ref: "ns/c1"})
+		if r.Bool() {
+			b.add(c08Obj{Kind: "claim", Name: "ns2/c1", Fins: []string{claim.VerifC08Finalizer}, Del: r.Bool(), Flag: r.Bool(), Ref: "x10"})
+			b.add(c08Obj{Kind: "xr", Name: "x10", Fins: []string{composite.VerifC08Finalizer}, Ref: "ns2/c1"})
+		}
+		return c08Scn{Objs: b.objs, Running: c08CtrlNames(), Steps: []c08Step{}}, c08Live{"claim", "ns/c1"}
+	}
+	xi := b.add(c08Obj{Kind: "xrd", Name: c08XRDName, Fins: []string{definition.VerifC08Finalizer, offered.VerifC08Finalizer}, Del: true, Ref: c08XRCRD, Of: c08ClaimCRD})
+	b.add(c08Obj{Kind: "crd", Name: c08XRCRD, Owners: []c08Owner{{Idx: xi, Ctrl: true, Block: true}}})
+	b.add(c08Obj{Kind: "crd", Name: c08ClaimCRD, Owners: []c08Owner{{Idx: xi, Ctrl: true, Block: true}}})
+	b.add(c08Obj{Kind: "xr", Name: "x1", Fins: []string{composite.VerifC08Finalizer}})
+	b.add(c08Obj{Kind: "claim", Name: "ns/c1", Fins: []string{claim.VerifC08Finalizer}})
+	return c08Scn{Objs: b.objs, Running: c08CtrlNames(), Steps: []c08Step{}}, c08Live{Pick(r, []string{"defined", "offered"}), c08XRDName}
+}
+
+func c08MissSchedule(r *Rng, l c08Live) func(w *c08World, i int) (c08Step, bool) {
+	// the miss hits the read of the dependent object: the claim's second call (Get XR), the
+	// XRD reconcilers' third (Get CRD); sometimes an earlier or later call instead
+	at := map[string]int{"claim": 2, "defined": 3, "offered": 3}[l.ctl]
+	if r.Chance(1, 4) {
+		at = r.Range(1, 5)
+	}
+	n := r.Range(at+1, at+5)
+	return func(w *c08World, i int) (c08Step, bool) {
+		switch {
+		case i == 0:
+			return c08Step{Op: "spawn", C: l.ctl, Name: l.name}, true
+		case i > n:
+			return c08Step{}, false
+		}
+		return c08Step{Op: "step", T: 0, O: "ok", Miss: i == at}, true
+	}
+}
+
+// c08MultiWorld / c08MultiSchedule: XRD teardown with 2-4 instances per CRD of which some
+// are already terminating (so that their own reconciles can finalize them), in a list order
+// that differs from creation order. The XRD reconcile is paused after a drawn number of
+// calls (typically right after its List), a drawn subset of the instance reconciles runs to
+// the end (instances vanish between the List and the per-item Deletes / the Stop), the XRD
+// reconcile goes on; then everything once more. Some reads of the second round lag.
+func c08MultiWorld(r *Rng) c08Scn {
+	b := &c08Builder{r: r}
+	xi := b.add(c08Obj{Kind: "xrd", Name: c08XRDName, Fins: []string{definition.VerifC08Finalizer, offered.VerifC08Finalizer}, Del: true, Ref: c08XRCRD, Of: c08ClaimCRD})
+	b.add(c08Obj{Kind: "crd", Name: c08XRCRD, Owners: []c08Owner{{Idx: xi, Ctrl: true, Block: true}}})
+	b.add(c08Obj{Kind: "crd", Name: c08ClaimCRD, Owners: []c08Owner{{Idx: xi, Ctrl: true, Block: true}}})
+	cns, xns := r.Perm(len(c08ClaimNames)), r.Perm(len(c08XRNames))
+	for i, n := 0, r.Range(2, 4); i < n; i++ {
+		// unbound claims and XRs: each can be finalized by its own reconcile alone
+		b.add(c08Obj{Kind: "claim", Name: c08ClaimNames[cns[i]], Fins: b.fins(claim.VerifC08Finalizer, 90, 10), Del: r.Chance(60, 100), Flag: r.Bool()})
+	}
+	for i, n := 0, r.Range(1, 3); i < n; i++ {
+		b.add(c08Obj{Kind: "xr", Name: c08XRNames[xns[i]], Fins: b.fins(composite.VerifC08Finalizer, 90, 10), Del: r.Chance(60, 100)})
+	}
+	return c08Scn{Objs: b.objs, Running: c08CtrlNames(), Steps: []c08Step{}}
+}
+
+func c08MultiSchedule(r *Rng) func(w *c08World, i int) (c08Step, bool) {
+	var queue []c08Step
+	round := 0
+	lag := r.Bool()
+	return func(w *c08World, i int) (c08Step, bool) {
+		if i == 0 {
+			w.keepSnaps = lag
+		}
+		for len(queue) == 0 {
+			if round >= 3 || i > 110 {
+				return c08Step{}, false
+			}
+			round++
+			// plan one round from the live world
+			s := w.snap()
+			var insts []c08Live
+			for _, k := range []string{"claim", "xr"} {
+				vs := s.ofKind(k)
+				sort.Slice(vs, func(a, b int) bool { return vs[a].Name < vs[b].Name })
+				for _, v := range vs {
+					if v.Del && r.Chance(2, 3) {
+						insts = append(insts, c08Live{k, v.Name})
+					}
+				}
+			}
+			tid := len(w.threads)
+			ctl := Pick(r, []string{"offered", "offered", "defined"})
+			queue = append(queue, c08Step{Op: "spawn", C: ctl, Name: c08XRDName})
+			pause := r.Range(3, 6)
+			for j := 0; j < pause; j++ {
+				st := c08Step{Op: "step", T: tid, O: "ok"}
+				if lag && round > 1 && j >= 3 && r.Chance(1, 3) {
+					st.At = 1 + r.Intn(i+len(queue))
+				}
+				queue = append(queue, st)
+			}
+			for n, l := range insts {
+				queue = append(queue, c08Step{Op: "spawn", C: l.ctl, Name: l.name})
+				for j := 0; j < 5; j++ {
+					queue = append(queue, c08Step{Op: "step", T: tid + 1 + n, O: "ok"})
+				}
+			}
+			for j := 0; j < 8; j++ {
+				queue = append(queue, c08Step{Op: "step", T: tid, O: "ok"})
+			}
+		}
+		st := queue[0]
+		queue = queue[1:]
+		return st, true
+	}
+}
+
+// c08StaleWorld / c08StaleSchedule: the neighbourhood of "an older version served": a third
+// party edits a terminating claim (delete policy, XR reference) or Usage (using resource,
+// composite label), then the reconcile runs with its FIRST read answered from the cache as
+// it was before the edit and every later call fresh. The unchanged code takes its decision
+// on the stale copy and is stopped by the resourceVersion precondition of its write.
+func c08StaleWorld(r *Rng) (c08Scn, c08Live, []c08Step) {
+	b := &c08Builder{r: r}
+	if r.Chance(2, 3) {
+		fg := r.Bool()
+		b.add(c08Obj{Kind: "claim", Name: "ns/c1", Fins: b.fins(claim.VerifC08Finalizer, 100, 10), Del: true, Flag: fg, Ref: "x1"})
+		b.add(c08Obj{Kind: "xr", Name: "x1", Fins: b.fins(composite.VerifC08Finalizer, 100, 30), Del: r.Chance(1, 3), Ref: "ns/c1"})
+		b.add(c08Obj{Kind: "xr", Name: "x10", Fins: []string{composite.VerifC08Finalizer}, Ref: Pick(r, []string{"ns/c1", "", "ns2/c1"})})
+		ed := []c08Step{{Op: "edit", Kind: "claim", Name: "ns/c1", W: "flip"}}
+		if r.Chance(1, 3) {
+			ed = []c08Step{{Op: "edit", Kind: "claim", Name: "ns/c1", W: "ref=x10"}}
+		}
+		return c08Scn{Objs: b.objs, Running: c08CtrlNames(), Steps: []c08Step{}}, c08Live{"claim", "ns/c1"}, ed
+	}
+	b.add(c08Obj{Kind: "usage", Name: "u1", Fins: []string{usagectrl.VerifC08Finalizer}, Del: true, Flag: r.Bool(), Ref: "using1", RefKind: Pick(r, []string{"", "res2"}), Of: "used1"})
+	b.add(c08Obj{Kind: "res", Name: "used1", Inuse: true})
+	b.add(c08Obj{Kind: Pick(r, []string{"res", "res2"}), Name: "using10", Fins: b.fins(c08Hold, 30, 0)})
+	ed := []c08Step{{Op: "edit", Kind: "usage", Name: "u1", W: "ref=using10"}}
+	if r.Bool() {
+		ed = append(ed, c08Step{Op: "edit", Kind: "usage", Name: "u1", W: "flip"})
+	}
+	return c08Scn{Objs: b.objs, Running: []string{}, Steps: []c08Step{}}, c08Live{"usage", "u1"}, ed
+}
+
+func c08StaleSchedule(r *Rng, l c08Live, edits []c08Step) func(w *c08World, i int) (c08Step, bool) {
+	script := append([]c08Step{}, edits...)
+	for round := 0; round < 2; round++ {
+		tid := round
+		script = append(script, c08Step{Op: "spawn", C: l.ctl, Name: l.name})
+		first := c08Step{Op: "step", T: tid, O: "ok"}
+		if round == 0 || r.Chance(1, 3) {
+			first.At = 1 // the cache as it was before the edit
+		}
+		script = append(script, first)
+		for j, m := 0, r.Range(2, 7); j < m; j++ {
+			st := c08Step{Op: "step", T: tid, O: "ok"}
+			if r.Chance(1, 6) {
+				st.At = 1 + r.Intn(len(script))
+			}
+			script = append(script, st)
+		}
+	}
+	return func(w *c08World, i int) (c08Step, bool) {
+		if i == 0 {
+			w.keepSnaps = true
+		}
+		if i >= len(script) {
+			return c08Step{}, false
+		}
+		return script[i], true
+	}
+}
+
 // c08Class classifies a run by ONE of its features: its family, a teardown write or wait
 // that happened ("did:"), an environment step that had an effect ("env:"), or a fault
 // kind that was injected ("fault:"). A run in which no teardown write and no wait
@@ -399,9 +769,17 @@ func c08Class(fam string, s c08Scn, o c08Obs) string {
 			if len(st.Chg) > 0 {
 				env["u"] = true
 			}
+		case "edit":
+			env["e"] = true
 		}
 		if sp.Op != "step" {
 			continue
+		}
+		if sp.At > 0 && sp.O == "ok" && (strings.HasPrefix(st.Call, "get:") || strings.HasPrefix(st.Call, "list:")) {
+			env["l"] = true
+		}
+		if sp.O == "fail" && sp.E != "" && st.Call != "" {
+			env["k:"+sp.E] = true
 		}
 		if st.Resp == "crashed" {
 			env["c"] = true
@@ -473,6 +851,12 @@ func c08Class(fam string, s c08Scn, o c08Obs) string {
 				feats = append(feats, "fault:error-or-conflict")
 			case t == "x":
 				feats = append(feats, "env:reconcile-of-absent-object")
+			case t == "e":
+				feats = append(feats, "env:third-party-edit")
+			case t == "l":
+				feats = append(feats, "cache:lagging-read")
+			case strings.HasPrefix(t, "k:"):
+				feats = append(feats, "fault:error-class-"+t[2:])
 			default:
 				feats = append(feats, "did:"+t)
 			}
@@ -541,7 +925,7 @@ func c08ExhWorlds() []c08Scn {
 
 // c08Enabled lists the schedule steps the exhaustive enumeration branches on in the
 // current state of the world.
-func c08Enabled(w *c08World, spawned []c08Live, outcomes []string) []c08Step {
+func c08Enabled(w *c08World, spawned []c08Live, outcomes []string, extra bool) []c08Step {
 	s := w.snap()
 	busy := map[c08Live]bool{}
 	var out []c08Step
@@ -552,6 +936,11 @@ func c08Enabled(w *c08World, spawned []c08Live, outcomes []string) []c08Step {
 			busy[spawned[id]] = true
 			for _, o := range outcomes {
 				out = append(out, c08Step{Op: "step", T: id, O: o})
+			}
+			// the next call, if a read, answered from the cache as it was at the very start (the
+			// reconcile's first read only if the object was terminating then, see c08RandomSchedule)
+			if extra && len(w.snaps) > 0 && (t.calls > 0 || c08Terminating(w.snaps[0], spawned[id])) {
+				out = append(out, c08Step{Op: "step", T: id, O: "ok", At: 1})
 			}
 		}
 	}
@@ -576,6 +965,9 @@ func c08Enabled(w *c08World, spawned []c08Live, outcomes []string) []c08Step {
 		}
 		if v.hasFin(c08Hold) {
 			out = append(out, c08Step{Op: "unfin", Kind: v.Kind, Name: v.Name, Fin: c08Hold})
+		}
+		if extra && (v.Kind == "claim" || v.Kind == "usage") {
+			out = append(out, c08Step{Op: "edit", Kind: v.Kind, Name: v.Name, W: "flip"})
 		}
 		if v.hasFin(c08FgFin) {
 			gc = true
@@ -602,7 +994,7 @@ func c08Enabled(w *c08World, spawned []c08Live, outcomes []string) []c08Step {
 
 // c08Exhaustive enumerates every schedule of exactly `depth` enabled steps (or shorter
 // when nothing is enabled) over one small world and emits each as a scenario.
-func c08Exhaustive(c *Ctx, variant int, base c08Scn, depth int, outcomes []string, limit int) int {
+func c08Exhaustive(c *Ctx, variant int, base c08Scn, depth int, outcomes []string, extra bool, limit int) int {
 	count := 0
 	var rec func(prefix []c08Step)
 	rec = func(prefix []c08Step) {
@@ -615,6 +1007,9 @@ func c08Exhaustive(c *Ctx, variant int, base c08Scn, depth int, outcomes []strin
 		s.Steps = prefix
 		n := len(prefix)
 		s2, obs, mons := c08Run(s, func(w *c08World, i int) (c08Step, bool) {
+			if i == 0 {
+				w.keepSnaps = extra
+			}
 			if i < n {
 				if prefix[i].Op == "spawn" {
 					spawned = append(spawned, c08Live{prefix[i].C, prefix[i].Name})
@@ -622,7 +1017,7 @@ func c08Exhaustive(c *Ctx, variant int, base c08Scn, depth int, outcomes []strin
 				return prefix[i], true
 			}
 			if n < depth {
-				enabled = c08Enabled(w, spawned, outcomes)
+				enabled = c08Enabled(w, spawned, outcomes, extra)
 			}
 			return c08Step{}, false
 		})
@@ -643,6 +1038,78 @@ func c08Exhaustive(c *Ctx, variant int, base c08Scn, depth int, outcomes []strin
 	return count
 }
 
+// c08ClassSweep: deterministic sweep, part of every run: over the eight fixed small
+// worlds, for every terminating object's reconcile, for every call position j and for
+// every error class (and a conflict): the reconcile runs fault-free up to call j, call j
+// fails with that class, the reconcile runs on to its end, then the same reconcile runs
+// once more fault-free. Whatever class the code would be tempted to treat as "fine" at
+// whatever call shows up here with a concrete failing input. Item k is run by shard k mod 8.
+func c08ClassSweep(c *Ctx) {
+	shard := int(c.Seed % 1000)
+	classes := append([]string{}, c08WriteClasses...)
+	k := 0
+	for wi, base := range c08ExhWorlds() {
+		var targets []c08Live
+		for _, o := range base.Objs {
+			if o.Del {
+				for _, ctl := range c08Ctls[o.Kind] {
+					targets = append(targets, c08Live{ctl, o.Name})
+				}
+			}
+		}
+		for _, tg := range targets {
+			for j := 0; j < 12; j++ {
+				landed := false
+				for ci := -1; ci < len(classes); ci++ {
+					k++
+					if k%8 != shard%8 && !(ci == -1 && !landed) {
+						continue
+					}
+					fault := c08Step{Op: "step", T: 0, O: "conflict"}
+					if ci >= 0 {
+						fault = c08Step{Op: "step", T: 0, O: "fail", E: classes[ci]}
+					}
+					steps := []c08Step{{Op: "spawn", C: tg.ctl, Name: tg.name}}
+					for x := 0; x < j; x++ {
+						steps = append(steps, c08Step{Op: "step", T: 0, O: "ok"})
+					}
+					steps = append(steps, fault)
+					for x := 0; x < 8; x++ {
+						steps = append(steps, c08Step{Op: "step", T: 0, O: "ok"})
+					}
+					steps = append(steps, c08Step{Op: "spawn", C: tg.ctl, Name: tg.name})
+					for x := 0; x < 10; x++ {
+						steps = append(steps, c08Step{Op: "step", T: 1, O: "ok"})
+					}
+					s := base
+					s.Steps = steps
+					s2, obs, mons := c08Run(s, nil)
+					landed = obs.Steps[1+j].Call != ""
+					if !landed {
+						break // the reconcile has fewer than j+1 calls
+					}
+					if k%8 != shard%8 {
+						continue // probe run of another shard's item
+					}
+					cls := "conflict"
+					if ci >= 0 {
+						cls = "class-" + classes[ci]
+						if classes[ci] == "" {
+							cls = "class-internal"
+						}
+					}
+					_ = c08Class("sweep", s2, obs)
+					_ = wi
+					c.Emit(s2, obs, mons, fmt.Sprintf("sweep:%s:%s", tg.ctl, cls))
+				}
+				if !landed {
+					break
+				}
+			}
+		}
+	}
+}
+
 func init() {
 	Register("C08", func(c *Ctx) {
 		for _, raw := range c.Corpus {
@@ -652,6 +1119,9 @@ func init() {
 				c.Emit(s2, obs, mons, "corpus")
 			}
 		}
+		if c.N > 0 {
+			c08ClassSweep(c)
+		}
 		if c.Tier == "thorough" {
 			// exhaustive small scopes: shard j (= seed mod 1000) enumerates world j
 			ws := c08ExhWorlds()
@@ -659,9 +1129,15 @@ func init() {
 			deep := []int{14, 10, 9, 8, 10, 8, 10, 9}
 			for v := j; v < len(ws); v += 8 {
 				// every schedule of 6 enabled steps, every step of a reconcile with all 5 outcomes
-				c08Exhaustive(c, v, ws[v], 6, []string{"ok", "fail", "conflict", "crashBefore", "crashAfter"}, 60000)
+				c08Exhaustive(c, v, ws[v], 6, []string{"ok", "fail", "conflict", "crashBefore", "crashAfter"}, false, 60000)
 				// every fault-free schedule to a larger depth (world 0 is exhausted: nothing is enabled any more)
-				c08Exhaustive(c, v, ws[v], deep[v%len(deep)], []string{"ok"}, 60000)
+				c08Exhaustive(c, v, ws[v], deep[v%len(deep)], []string{"ok"}, false, 60000)
+				// claim and Usage worlds: every fault-free schedule of 6 steps in which, in addition,
+				// a third party may flip the claim's delete policy / the Usage's composite label at
+				// any point and any read may be answered from the cache as it was at the start
+				if v <= 2 || v == 7 {
+					c08Exhaustive(c, v, ws[v], 6, []string{"ok"}, true, 30000)
+				}
 			}
 		}
 		for i := 0; i < c.N; i++ {
@@ -672,7 +1148,31 @@ func init() {
 				c.Emit(s2, obs, mons, "liveclaim:race-neighbourhood")
 				continue
 			}
+			if r.Chance(1, 120) {
+				ws, l := c08MissWorld(r)
+				s2, obs, mons := c08Run(ws, c08MissSchedule(r, l))
+				_ = c08Class("cachemiss", s2, obs)
+				c.Emit(s2, obs, mons, "cachemiss:"+l.ctl)
+				continue
+			}
+			if r.Chance(1, 50) {
+				s2, obs, mons := c08Run(c08MultiWorld(r), c08MultiSchedule(r))
+				c.Emit(s2, obs, mons, c08Class("multi-instance-teardown", s2, obs))
+				continue
+			}
+			if r.Chance(1, 100) {
+				ws, l, ed := c08StaleWorld(r)
+				s2, obs, mons := c08Run(ws, c08StaleSchedule(r, l, ed))
+				_ = c08Class("stale", s2, obs)
+				c.Emit(s2, obs, mons, "cache:stale-first-read:"+l.ctl)
+				continue
+			}
 			s, fam := c08GenWorld(r)
+			if r.Chance(1, 10) {
+				s2, obs, mons := c08Run(s, c08SeqSchedule(r, 70))
+				c.Emit(s2, obs, mons, c08Class("seq-"+fam, s2, obs))
+				continue
+			}
 			n := r.Range(8, 45)
 			// 1 scenario in 40 of the families with an XRD also schedules live-claim reconciles
 			liveClaims := (fam == "xrd" || fam == "mixed") && r.Chance(1, 16)
